@@ -33,7 +33,7 @@ KEYS = ["hdd_tidd_cdd_smooth", "hdd_tidd_cdd", "c_hdd_tidd_smooth", "c_hdd_tidd"
 CASES = [{"key": k, "final": f} for k in KEYS for f in [True, False]]
 
 
-def in_box(key, x, lo, hi, smax):
+def in_box(key, x, lo, hi, smax, edge_lo=None, edge_hi=None):
     """The box handed to the optimiser by fit_hdd_tidd_cdd / fit_c_hdd_tidd / fit_tidd (DESIGN Appendix A):
     one shared interval for both breakpoints, slopes in [0, smax] (two-sided) or [-smax, smax] (one-sided),
     fractions in [0, 1], absolute k in [0, 1000].  Nothing orders hdd_bp and cdd_bp."""
@@ -45,6 +45,10 @@ def in_box(key, x, lo, hi, smax):
     if key == "c_hdd_tidd_smooth":
         return And(lo <= x[0], x[0] <= hi, 0 - smax <= x[1], x[1] <= smax, 0 <= x[2], x[2] <= 1000)
     if key == "c_hdd_tidd":
+        if edge_lo is not None:
+            # the FINAL fit of the unsmoothed one-sided shape pins the breakpoint on the edge of the range ([T_min, T_min] or [T_max, T_max]) when the
+            # prior breakpoint sits in the segment buffer (fit_c_hdd_tidd): the box is then a point outside the segment limits
+            return And(Or(And(lo <= x[0], x[0] <= hi), x[0] == edge_lo, x[0] == edge_hi), 0 - smax <= x[1], x[1] <= smax)
         return And(lo <= x[0], x[0] <= hi, 0 - smax <= x[1], x[1] <= smax)
     return True
 
@@ -78,7 +82,10 @@ def admissible(key, final, x0: Real, x1: Real, x2: Real, x3: Real, x4: Real, x5:
     x = raw_vector(key, x0, x1, x2, x3, x4, x5, x6)
     lo = T_min_seg if final else T_min
     hi = T_max_seg if final else T_max
-    assume(in_box(key, x, lo, hi, smax))
+    if final:
+        assume(in_box(key, x, lo, hi, smax, T_min, T_max))
+    else:
+        assume(in_box(key, x, lo, hi, smax))
     res = refined(key, final, x, T_min, T_max, T_min_seg, T_max_seg)
     c = res.named_coeffs
     shape = c.model_type.value
@@ -169,12 +176,14 @@ def finding_H2(key, x, T_min, T_max):
 
 def finding_H3(key, final, x, T_min, T_max, T_min_seg, T_max_seg):
     """Witness class of known finding C12-H3 (fits bounded by the full range, i.e. the initial fits kept in
-    fit_components and, without a final refit, in the model): a one-sided unsmoothed result whose breakpoint
+    fit_components and, without a final refit, in the model; and the final fit of the unsmoothed one-sided shape when
+    fit_c_hdd_tidd pins its breakpoint on the edge of the range): a one-sided unsmoothed result whose breakpoint
     lies beyond the segment limits is stored with the breakpoint moved onto the limit."""
+    if key == "c_hdd_tidd":
+        # (also in a final fit: its breakpoint box can be the edge of the range, see in_box)
+        return Or(x[0] < T_min_seg, x[0] > T_max_seg)
     if final:
         return False
-    if key == "c_hdd_tidd":
-        return Or(x[0] < T_min_seg, x[0] > T_max_seg)
     if key == "tidd":
         return False
     # any other key can be reduced to a one-sided unsmoothed model: breakpoints beyond the segment limits
@@ -193,7 +202,10 @@ def curve_preserved(key, final, x0: Real, x1: Real, x2: Real, x3: Real, x4: Real
     x = raw_vector(key, x0, x1, x2, x3, x4, x5, x6)
     lo = T_min_seg if final else T_min
     hi = T_max_seg if final else T_max
-    assume(in_box(key, x, lo, hi, smax))
+    if final:
+        assume(in_box(key, x, lo, hi, smax, T_min, T_max))
+    else:
+        assume(in_box(key, x, lo, hi, smax))
     assume(And(T_min <= at(T), at(T) <= T_max))   # the component's own baseline temperatures
     before = at(scored(key, x, T_min, T_max, T))
     res = refined(key, final, x, T_min, T_max, T_min_seg, T_max_seg)
